@@ -20,7 +20,7 @@ from harness.tlc import check_model, judge, TLCError
 MC = 'CONSTANT Tier = "%s"\nINIT Init\nNEXT Next\nINVARIANT SizesAsCoded\nINVARIANT NetInputIsStrideMultiple\nINVARIANT DecodeWithinTight\nINVARIANT TightWithinClosed\nCHECK_DEADLOCK FALSE\n'
 U = 1024
 SIZES = [(48, 64), (64, 48), (57, 77)]
-MAXS = [(0, 0), (64, 96), (96, 64)]
+MAXS = [(0, 0), (64, 96), (96, 64), (40, 56), (0, 96), (80, 0)]   # none, larger, smaller than the image, one-sided
 SCALES = [(1, 1), (1, 2)]
 
 
@@ -37,6 +37,9 @@ def gen_cfg(rng, kind):
     sn, sd = rng.choice(SCALES)
     c = dict(H=H, W=W, maxH=mh, maxW=mw, sn=sn, sd=sd, ms=rng.choice([8, 16]), s=rng.choice([1, 2, 4]),
              refine=rng.choice([None, "integral"]), batch=rng.choice([1, 3]))
+    # frames of two different sizes (two videos) in one run: every frame has its own eff_scale; needs both maxima
+    # (otherwise frames of different sizes cannot share a batch) and only the labels provider can serve it
+    c["H2"], c["W2"] = rng.choice([s_ for s_ in SIZES if s_ != (H, W)]) if (mh and mw and rng.random() < 0.4) else (0, 0)
     if kind == "topdown":
         csn, csd = rng.choice(SCALES)
         c.update(csn=csn, csd=csd, cs=rng.choice([1, 2, 4]), crop=rng.choice([24, 32]), cropw=rng.choice([24, 32, 40]), anchor=rng.choice([None, 0]))
@@ -47,13 +50,16 @@ def place(rng, lo, hi):
     return round(rng.uniform(lo, hi) * 4) / 4.0
 
 
-def gen_scene(rng, c, kind, n_nodes=3, n_frames=3):
+def gen_scene(rng, c0, kind, n_nodes=3, n_frames=3):
     """Keypoints in general position for this configuration (returns None when the image is too small)."""
-    eff = eff_of(c["H"], c["W"], c["maxH"], c["maxW"])
-    a = 1.0 / (eff * c["sn"] / c["sd"])
-    m = 2 * a * c["s"] + 2
     frames = []
     for f in range(n_frames):
+        c = dict(c0)
+        if c0.get("H2") and f % 2 == 1:
+            c["H"], c["W"] = c0["H2"], c0["W2"]
+        eff = eff_of(c["H"], c["W"], c["maxH"], c["maxW"])
+        a = 1.0 / (eff * c["sn"] / c["sd"])
+        m = 2 * a * c["s"] + 2
         animals = []
         if kind == "single":
             if c["W"] - 1 - 2 * m < 4 or c["H"] - 1 - 2 * m < 4:
@@ -94,7 +100,7 @@ def gen_scene(rng, c, kind, n_nodes=3, n_frames=3):
                         cents.append((ctr[0], ctr[1]))
                         animals.append(pts)
                         break
-        frames.append(dict(hw=(c["H"], c["W"]), animals=animals))
+        frames.append(dict(hw=(c["H"], c["W"]), animals=animals, video=(1 if (c0.get("H2") and f % 2 == 1) else 0)))
     return frames
 
 
@@ -122,7 +128,7 @@ def observe(kind, c, frames, provider, n_nodes, with_labels=False):
             lab = ip.run_predictor(pred2, provider, labels, c["batch"], make_labels=True)
             lres = {}
             for lf in lab:
-                lres[(0, int(lf.frame_idx))] = [np.asarray(inst.numpy(), dtype=np.float64) for inst in lf.instances]
+                lres[(lab.videos.index(lf.video), int(lf.frame_idx))] = [np.asarray(inst.numpy(), dtype=np.float64) for inst in lf.instances]
             for k, v in res.items():
                 res[k] = [(p, vv, sc, (lres.get(k, [])[j] if j < len(lres.get(k, [])) else None)) for j, (p, vv, sc) in enumerate(v)]
         return res, "", stubs
@@ -150,19 +156,31 @@ def associate(animals, preds):
 
 
 def cases_for(kind, c, frames, n_nodes, cid0):
-    obs = {pv: observe(kind, c, frames, pv, n_nodes, with_labels=(pv == "LabelsReader")) for pv in ("LabelsReader", "VideoReader")}
+    mixed = bool(c.get("H2"))
+    provs = ("LabelsReader",) if mixed else ("LabelsReader", "VideoReader")   # a video has one frame size
+    obs = {pv: observe(kind, c, frames, pv, n_nodes, with_labels=(pv == "LabelsReader")) for pv in provs}
+    if mixed:
+        obs["VideoReader"] = ({}, "not applicable", [])
     cases = []
-    jc = {k: c[k] for k in ("H", "W", "maxH", "maxW", "sn", "sd", "ms", "s")}
-    for pv, other in (("LabelsReader", "VideoReader"), ("VideoReader", "LabelsReader")):
+    jc0 = {k: c[k] for k in ("H", "W", "maxH", "maxW", "sn", "sd", "ms", "s")}
+    jc = jc0
+    # the code reports (video_idx, frame_idx within the video); map our global frame number to that key
+    keyof, cnt = {}, {}
+    for fid_, fr_ in enumerate(frames):
+        v_ = int(fr_.get("video", 0))
+        keyof[fid_] = (v_, cnt.get(v_, 0))
+        cnt[v_] = cnt.get(v_, 0) + 1
+    for pv, other in ((("LabelsReader", "VideoReader"),) if mixed else (("LabelsReader", "VideoReader"), ("VideoReader", "LabelsReader"))):
         res, raised, stubs = obs[pv]
         ores, oraised, _ = obs[other]
         if raised:
             cases.append(dict(id=cid0 + len(cases), kind=kind, provider=pv, cfg=jc, raised=raised, count_ok=True, has_other=False, kps=[], frame=-1, full=c))
             continue
         for fid, fr in enumerate(frames):
+            jc = dict(jc0, H=fr["hw"][0], W=fr["hw"][1])   # every frame is judged with its own size (own eff_scale)
             animals = [a for a in fr["animals"] if np.any(np.isfinite(a))]
-            preds = res.get((0, fid), [])
-            opreds = ores.get((0, fid), []) if not oraised else []
+            preds = res.get(keyof[fid], [])
+            opreds = ores.get(keyof[fid], []) if not oraised else []
             if kind == "topdown":
                 preds = [p for p in preds]
             count_ok = len(preds) == len(animals) if kind == "topdown" else (len(preds) == 1)
@@ -248,10 +266,12 @@ def run(tier, seed, replay_case=None):
     res.clause("keypoints_judged", sum(len(c["kps"]) for c in cases))
     res.clause("invisible_keypoints", sum(1 for c in cases for k in c["kps"] if not k["vis"]))
     res.clause("cases_scale_not_1", sum(1 for c in cases if c["cfg"]["sn"] != c["cfg"]["sd"]))
+    res.clause("cases_in_runs_mixing_two_frame_sizes", sum(1 for c in cases if c["full"].get("H2")))
+    res.clause("cases_downscaled_by_size_matching", sum(1 for c in cases if c["cfg"]["maxH"] and (c["cfg"]["maxH"] < c["cfg"]["H"] or (c["cfg"]["maxW"] and c["cfg"]["maxW"] < c["cfg"]["W"]))))
     res.clause("cases_size_matched", sum(1 for c in cases if c["cfg"]["maxH"]))
     res.coverage.update(evaluations=len(cases), exhaustive=False,
                         distinct_nontrivial=len({(c["kind"], str(c["full"]), c["provider"], c["frame"], str(c["kps"])) for c in cases if c["kps"]}),
-                        rule="seeded configurations from sizes x max sizes x scales {1, 1/2} (both stages) x max_stride {8,16} x output strides {1,2,4} x crop_hw {24,32} x {24,32,40} (non-square included) x refinement x batch {1,3} x both providers; 3 frames per run, keypoints on the quarter-pixel lattice at least two cells inside the image / crop; non-trivial = a case with judged keypoints")
+                        rule="seeded configurations from sizes x max sizes x scales {1, 1/2} (both stages) x max_stride {8,16} x output strides {1,2,4} x crop_hw {24,32} x {24,32,40} (non-square included) x refinement x batch {1,3} x both providers; max sizes larger / smaller than the image and one-sided; 40% of the size-matched runs mix frames of two sizes (two videos, labels provider only: per-frame eff_scale); 3 frames per run, keypoints on the quarter-pixel lattice at least two cells inside the image / crop; non-trivial = a case with judged keypoints")
     if cases:
         c = next((c for c in cases if c["kps"]), cases[0])
         res.sample(dict(kind=c["kind"], cfg=c["full"], provider=c["provider"], kps=c["kps"][:3]))
